@@ -215,6 +215,7 @@ fn main() {
         "handover_snap" => bucket_scenario(pb, 63, &[Push(2), Snap]),
         "handover_push_push" => bucket_scenario(pb, 63, &[Push(1), Push(1)]),
         "handover_push_push_clear" => bucket_scenario(pb, 63, &[Push(1), Push(1), Clear]),
+        "full_clear_clear" => bucket_scenario(pb, 64, &[Clear, Clear]),
         "full_push_clear" => bucket_scenario(pb, 64, &[Push(1), Clear]),
         _ => {
             eprintln!("unknown scenario");
